@@ -4,7 +4,7 @@
 (*                                                                         *)
 (*  Poly   {P: integer polygon, vars: [variant, ...]}                      *)
 (*     a variant is one real Cell built from P under a storage/embedding   *)
-(*       kind  "id" | "shift" | "rev" | "tr" | "scale" | "trf"             *)
+(*       kind  "id" | "shift" | "rev" | "tr" | "scale" | "trf" | "unit"    *)
 (*       s, rev, t, k   stored vertex i = k * B[((i-1+s) mod n) + 1] + t,  *)
 (*                      B = reversed P if rev else P                       *)
 (*       exact TRUE: pts = the stored coordinates read back from the Cell  *)
@@ -37,6 +37,9 @@ KindOK(v) ==
   \/ v.kind = "tr"    /\ v.s = 0 /\ ~v.rev /\ v.t # <<0, 0>> /\ v.k = 1 /\ v.exact
   \/ v.kind = "scale" /\ v.s = 0 /\ ~v.rev /\ v.t = <<0, 0>> /\ v.k > 1 /\ v.exact
   \/ v.kind = "trf"   /\ v.s = 0 /\ ~v.rev /\ v.k = 1 /\ ~v.exact
+  \* the same lattice polygon built in another length unit (coordinates x 2^u, exact in binary floating point); the driver
+  \* converts areas by 2^(-2u) and lengths by 2^(-u), so the variant must agree with the identity storage as for k = 1
+  \/ v.kind = "unit"  /\ v.s = 0 /\ ~v.rev /\ v.t = <<0, 0>> /\ v.k = 1 /\ v.exact
 
 \* the logged storage really is the stated transform of P (premise of the relational clauses)
 EmbOK(P, v) ==
@@ -72,7 +75,7 @@ PerRelOK(v, id) == ScaledCloseU(v.per, id.per, v.k, TolPer + 2 * v.k)
 
 RelClause(kind) == IF kind = "rev" THEN "C20.reverse_flips"
                    ELSE IF kind = "shift" THEN "C20.shift_invariant"
-                   ELSE IF kind = "scale" THEN "C20.scaling"
+                   ELSE IF kind = "scale" \/ kind = "unit" THEN "C20.scaling"
                    ELSE "C20.translation_invariant"
 
 NavSame(v, id, n) == /\ GeoSucc(v.nx, n, v.s, v.rev) = GeoSucc(id.nx, n, 0, FALSE)
